@@ -155,9 +155,22 @@ def pipeline(c, nflow, npar, nscen, seed_off=0, par_exec=0, race=False, progs=No
     binary, err = build_runner(c, root, race)
     if binary is None:
         viol("C13", "generated code does not compile:\n" + err[-2000:], dict(kind="gen-corpus", seed_off=seed_off, nflow=nflow, npar=npar))
+        # a user variable named like an identifier of the generated code that the compiler finds unused, or used as
+        # something else, has been captured or shadowed by the generated one (C15, last clause)
+        for nm in sorted({m.group(1) or m.group(2) for m in re.finditer(r"declared and not used: (\w+)|invalid argument: index (\w+) \(variable of type", err)}):
+            if nm in render.GEN_NAMES:
+                viol("C15", "the user variable %s of an argument expression, named like an identifier of the generated code, is captured or "
+                     "shadowed by it (the output does not compile):\n%s" % (nm, err[-1200:]),
+                     dict(kind="gen-corpus", seed_off=seed_off, nflow=nflow, npar=npar))
+                break
         # go on with the programs whose files do compile: what they do is still to be judged
         for attempt in range(8):
             badfiles = set()
+            # (positions redirected by a //line header name no real file: all files of the package that carry one)
+            for m in re.finditer(r"(?m)^templates/(\w+)_tmpl\.go:\d+", err):
+                for f in os.listdir(os.path.join(root, m.group(1))) if os.path.isdir(os.path.join(root, m.group(1))) else []:
+                    if f.endswith(".go") and not f.endswith("_gen.go") and "//line templates/" in open(os.path.join(root, m.group(1), f)).read():
+                        badfiles.add((m.group(1), f[:-3]))
             for m in re.finditer(r"(?m)^(?:(\w+)/)?([\w.]+?)(?:_gen)?\.go:\d+", err):
                 for pkg in pk:          # positions may name the source file (line directives) and omit the directory
                     if (m.group(1) in (None, pkg)) and os.path.exists(os.path.join(root, pkg, m.group(2) + ".go")):
